@@ -48,7 +48,8 @@ def gen_program(rng, nkeys, cyclic=False, malformed=False, mustfollow=False):
         r.force = 1 if rng.chance(1, 12) else 0
         r.deferred = 1 if rng.chance(1, 3) else 0
         r.vmod = rng.choice([0, 0, 0, 2, 3, 5])
-        nid = [0]
+        # input ids are opaque to the engine (clients pass pointers): some rules use ids beyond 32 bits
+        nid = [rng.choice([0, 0, 0, 1 << 32, 0x7f3200001000])]
 
         def req(lo=None):
             nid[0] += 1
